@@ -190,6 +190,10 @@ func ParseRtmpUrl(rawUrl string) (ctx UrlContext, err error) {
 	//
 	if strings.Count(ctx.PathWithRawQuery, "?") > 1 {
 		index := strings.LastIndexByte(ctx.PathWithRawQuery, '/')
+		// 注意，没有第二个`/`时（比如`rtmp://host/app?x?y`），不是这种特殊格式，无法拆分出appName和streamName
+		if index < 1 {
+			return ctx, fmt.Errorf("%w. url=%s", ErrInvalidUrl, rawUrl)
+		}
 		ctx.Path = ctx.PathWithRawQuery
 		ctx.PathWithoutLastItem = ctx.PathWithRawQuery[1:index]
 		ctx.LastItemOfPath = ctx.PathWithRawQuery[index+1:]
